@@ -139,7 +139,10 @@ impl<'a, C: Crypto> PaseResponder<'a, C> {
             return Ok(true);
         }
 
-        let success = self.handle_pasepake3(exchange, session).await?;
+        let Some(success) = self.handle_pasepake3(exchange, session).await? else {
+            self.clear_session_timeout(exchange)?;
+            return Ok(true);
+        };
 
         exchange.acknowledge().await?;
 
@@ -354,12 +357,31 @@ impl<'a, C: Crypto> PaseResponder<'a, C> {
         &mut self,
         exchange: &mut Exchange<'_>,
         mut session: ReservedSession<'_>,
-    ) -> Result<bool, Error> {
+    ) -> Result<Option<bool>, Error> {
         expect_opcode(exchange, OpCode::PASEPake3).await?;
 
         let req = get_root_node_struct(exchange.rx()?.payload())?;
         let pake3 = Pake3::from_tlv(&req)?;
         let ca: HmacHashRef<'_> = pake3.ca.0.try_into()?;
+
+        // The commissioning window may have been closed, revoked or may have timed out
+        // since PASEPake1: a PASE session must only come into existence while it is open.
+        let notify_mdns = || exchange.matter().transport().notify_mdns_changed();
+        let notify_change =
+            |endpt_id, cluster_id| self.notify.notify_cluster_changed(endpt_id, cluster_id);
+
+        let has_comm_window = exchange.with_state(|state| {
+            state
+                .pase
+                .check_comm_window_timeout(notify_mdns, notify_change)?;
+
+            Ok(state.pase.comm_window().is_some())
+        })?;
+
+        if !has_comm_window {
+            debug!("Dropping PASEPake3: no commissioning window open");
+            return Ok(None);
+        }
 
         let verify_result = self.spake2p.verify(ca);
         let success = verify_result.is_ok();
@@ -433,7 +455,7 @@ impl<'a, C: Crypto> PaseResponder<'a, C> {
 
         complete_with_status(exchange, status, &[]).await?;
 
-        Ok(success)
+        Ok(Some(success))
     }
 
     /// Update the PASE session timeout tracker
